@@ -27,6 +27,7 @@ func checkC16(c *Ctx) {
 	c.checkAttachmentLinking()
 	c.checkForcedDownloadUnderMime()
 	c.checkAvatarLinkOnlyWithDesc()
+	c.checkHeadersBehindGates()
 }
 
 func isHTTPHandler(fn *ssa.Function) bool {
